@@ -83,7 +83,7 @@ PROPS = {
         run=run_c01, replay=replay_olh('twin'), level='proof', assumptions=SHELL_ASSUME,
         model_limits='environment independence of the 39 handlers themselves rests on the extracted envUses/mapRanges tables plus twin replicas (identity, role, witness flag differ; Go map order differs per run), not on per-handler proofs; IAVL determinism is trusted (validated under C09)'),
     'C02': dict(
-        lean_modules=['OLP.Props.C02'], namespaces=['OLP.Props.C02'],
+        lean_modules=['OLP.Props.C02', 'OLP.Props.C02Facts'], namespaces=['OLP.Props.C02'],
         required_theorems=['transfer_conserves', 'transfer_nonneg', 'negative_credit_breaks_nonneg', 'send_conserves', 'send_nonneg', 'mismatched_coins_change_total', 'toCoinWithBase_wraps', 'wrap64_exact_iff', 'history_no_creation'],
         run=run_c02, replay=replay_olh('ledger'), level='proof',
         assumptions=['the value ledger is decoded from the committed tree by the harness (record classes and units in harness/apph/ledger.go DecodeLedger); active network delegations are counted through the delegation pool balance that mirrors them (C12)',
@@ -123,7 +123,7 @@ PROPS = {
         run=run_c08, replay=replay_olh('crash'), level='proof', assumptions=SHELL_ASSUME + ['a crash is a process death with the OS page cache intact: the data directory is byte-copied at the crash point while the application is still open and the copy is reopened; power-loss durability of goleveldb/IAVL batches is trusted'],
         model_limits='premise VolDerived (volatile memory at block boundaries is a function of the persisted tree) is an application-level discipline: checked statically for the option copies (Prepare vs setupState) and dynamically by the crash twin for everything else'),
     'C09': dict(
-        lean_modules=['OLP.Props.C09'],
+        lean_modules=['OLP.Props.C09', 'OLP.Props.C09Facts'],
         namespaces=['OLP.Props.C09'],
         required_theorems=['get_returns_view', 'deleted_reads_absent', 'discard_invisible', 'commit_persists_block',
                            'old_versions_immutable', 'reopen_returns_last_commit', 'erase_reads_same_state',
